@@ -127,6 +127,10 @@ func evalCodec(cc codecCase) *Failure {
 	if msg, p := try(func() { lg = libGraphFromEG(g, cc.Rep) }); p {
 		return mk("cannot-build-input", msg)
 	}
+	defer func() {}()
+	if f := encodersArePure(cc, g, lg, mk); f != nil {
+		return f
+	}
 	switch cc.Codec {
 	case "graph6":
 		var enc string
@@ -224,6 +228,40 @@ func evalCodec(cc codecCase) *Failure {
 	return nil
 }
 
+// encodersArePure: encoding twice gives the same bytes and leaves the graph exactly as it was.
+func encodersArePure(cc codecCase, g *EG, lg graph.Graph, mk func(cl, what string) *Failure) *Failure {
+	enc := func() (string, string, bool) {
+		var out string
+		msg, p := try(func() {
+			switch cc.Codec {
+			case "graph6":
+				out = graph.Graph6Encode(lg)
+			case "sparse6":
+				out = graph.Sparse6Encode(lg)
+			case "multicode":
+				if g.N <= 255 {
+					out = string(graph.MulticodeEncode(lg))
+				}
+			}
+		})
+		return out, msg, p
+	}
+	a, msg, p := enc()
+	if p {
+		return nil // reported with its own class below
+	}
+	_ = msg
+	b, _, p2 := enc()
+	if p2 || a != b {
+		return mk("encoder-not-repeatable", "a second encoding of the same graph value differs from the first")
+	}
+	after, prob := egFromLib(lg)
+	if prob != "" || after.key() != g.key() {
+		return mk("encoder-modifies-its-argument", fmt.Sprintf("after encoding the graph is %s %s", clip(after.key()), prob))
+	}
+	return nil
+}
+
 func hasEdgeToLast(g *EG) bool {
 	for _, e := range g.Edges {
 		if e[1] == g.N-1 {
@@ -294,6 +332,12 @@ func evalPruferCode(cc codecCase) *Failure {
 	if msg, p := try(func() { back2 = graph.PruferEncode(d) }); p || !intsEq(back2, cc.Code) {
 		return mk("encode-of-decoded-graph", fmt.Sprintf("PruferEncode(PruferDecode(code)) = %v %s", back2, msg))
 	}
+	if msg, p := try(func() { back2 = graph.PruferEncode(d) }); p || !intsEq(back2, cc.Code) {
+		return mk("encode-not-repeatable", fmt.Sprintf("second PruferEncode of the decoded tree = %v %s", back2, msg))
+	}
+	if w := selfConsistent(d); w != "" {
+		return mk("encode-modifies-its-argument", "after PruferEncode the decoded tree is malformed: "+w)
+	}
 	return nil
 }
 
@@ -303,13 +347,21 @@ func evalPruferTree(cc codecCase) *Failure {
 	mk := func(cl, what string) *Failure {
 		return &Failure{Class: "codec/prufer/" + cl, What: fmt.Sprintf("tree n=%d %v (%s): %s", cc.N, cc.Edges, cc.Rep, what), Kind: "prufer-tree", Replay: cc}
 	}
-	var code []int
-	if msg, p := try(func() { code = graph.PruferEncode(libGraphFromEG(g, cc.Rep)) }); p {
+	var code, code2 []int
+	tree := libGraphFromEG(g, cc.Rep)
+	if msg, p := try(func() { code = graph.PruferEncode(tree) }); p {
 		return mk("encode-panics", msg)
 	}
 	want := refPruferEncode(g)
 	if !intsEq(code, want) {
 		return mk("encode-wrong-code", fmt.Sprintf("got %v want %v", code, want))
+	}
+	// encoding is a read-only query: the tree is unchanged and a second encoding gives the same code
+	if after, prob := egFromLib(tree); prob != "" || after.key() != g.key() {
+		return mk("encode-modifies-its-argument", fmt.Sprintf("after PruferEncode the tree is %s %s", after.key(), prob))
+	}
+	if msg, p := try(func() { code2 = graph.PruferEncode(tree) }); p || !intsEq(code2, want) {
+		return mk("encode-not-repeatable", fmt.Sprintf("second PruferEncode of the same tree value gives %v %s", code2, msg))
 	}
 	var d *graph.DenseGraph
 	if msg, p := try(func() { d = graph.PruferDecode(code) }); p {
